@@ -1,7 +1,7 @@
 SPECIFICATION TSpec
 CONSTANTS
   Task = {1,2,3,4,5,6,7,8,9,10,11,12}
-  Deviations = {}
+  Deviations = {"FpControlStateNotPreserved"}
 INVARIANT NotAccepted
 CONSTRAINT TrackMax
 POSTCONDITION PrintMax
